@@ -45,13 +45,13 @@ HAND = {
                               "            self.detectors[det_key].set_reference(\n                X=X, y_true=y_true, y_pred=y_pred\n            )", False, ["C12"]),
     "H11_pcacd_step": ("menelaus/data_drift/pca_cd.py", "if (((self.total_samples - 1) % self.step) == 0) and (", "if ((self.total_samples % self.step) == 0) and (", False, ["C11"]),
     "H12_stepd_recent": ("menelaus/concept_drift/stepd.py", "if self.samples_since_reset >= 2 * self.window_size:", "if self.samples_since_reset > 2 * self.window_size:", False, ["C05", "C01"]),
-    "H13_ph_reset_mean": ("menelaus/change_detection/page_hinkley.py", "        self._sum = 0\n        self._mean = 0\n        self._change_scores = []", "        self._sum = 0\n        self._change_scores = []", False, ["C04", "C02"]),
+    "H13_ph_reset_min": ("menelaus/change_detection/page_hinkley.py", "        super().reset()\n        self._max = 0\n        self._min = 0\n", "        super().reset()\n        self._max = 0\n", False, ["C04", "C02"]),
     "H14_adwin_recs": ("menelaus/change_detection/adwin.py", "self.total_samples - self._window_size,\n                                    self.total_samples - 1,",
                        "self.total_samples - self._window_size - 1,\n                                    self.total_samples - 1,", False, ["C03"]),
     "H15_batch_rows": ("menelaus/detector.py", "        if ary.shape[0] <= 1:\n            raise ValueError(\n                \"Input for batch detectors", "        if ary.shape[0] < 1:\n            raise ValueError(\n                \"Input for batch detectors", False, ["C14"]),
     "H16_label_swap_mutates": ("menelaus/injection/injector.py", "        copy = np.copy(data)\n", "        copy = np.asarray(data)\n", False, ["C15"]),
     "H17_row_order_hdm": ("menelaus/data_drift/histogram_density_method.py", "test_density = self._build_histograms(X, mins, maxes)", "test_density = self._build_histograms(X.iloc[: max(2, len(X) - 1)], mins, maxes)", False, ["C18", "C07"]),
-    "H18_lfr_label_identity": ("menelaus/concept_drift/lfr.py", "        y_p = 1 * y_pred\n        y_t = 1 * y_true", "        y_p = int(y_pred is not False and y_pred != 0)\n        y_t = 1 * y_true", False, ["C16", "C06"]),
+    "H18_lfr_label_identity": ("menelaus/concept_drift/lfr.py", "        y_p = 1 * y_pred\n        y_t = 1 * y_true", "        y_p = 1 * y_pred\n        y_t = int(str(y_true) == \"1\")", False, ["C16"]),
 }
 
 
